@@ -3,7 +3,7 @@
 From Coq Require Import ZArith List Bool Permutation.
 From Verif Require Import Containers.BitVecModel Containers.BitVecProofs Containers.ArenaModel Containers.ArenaProofs
   Containers.VecModel Containers.VecProofs Containers.WorldProofs Containers.World2Proofs Containers.HashModel Containers.HashProofs Containers.StrModel Containers.StrProofs
-  Containers.TreeModel Containers.TreeProofs Containers.TreeGeneral Containers.TreeRotate Containers.TreeRecolor Containers.TreeLink Containers.ArenaChainModel Containers.ArenaChainProofs
+  Containers.TreeModel Containers.TreeProofs Containers.TreeGeneral Containers.TreeRotate Containers.TreeRecolor Containers.TreeLink Containers.TreeInsertAbs Containers.TreeInsertRefine Containers.TreeRemoveAbs Containers.TreeRemoveRefine Containers.ArenaChainModel Containers.ArenaChainProofs Containers.ArenaChainGeneral
   Containers.ListModel Containers.ListProofs Containers.BitSetModel Containers.BitSetProofs Containers.RangeIterModel Containers.RangeIterProofs.
 From VerifGen Require Import C18HashTable C18VecTable.
 Import ListNotations.
@@ -270,6 +270,20 @@ Example C18_hash_hypotheses_satisfiable : hash_inv hash_empty /\ hash_arena_inv 
 Proof. split; [exact hash_inv_empty|exact I]. Qed.
 
 (* ================================================================== (5') the block chain at pointer level *)
+(* the scan loop of _alloc_oneshot at pointer level (blocks with `next` fields, released blocks leave the heap), chains of ANY
+   length: it returns the first following block that is large enough (as the list-level scan of the arena model does), links
+   cur to it, leaves the chain from there on untouched and never dereferences a released block *)
+Theorem C18_arena_chain_scan_general : forall l fuel h cur next size csz,
+  (length l < fuel)%nat -> chain_at h next l -> cfind h cur = Some (mkcb cur next csz) -> cur <> 0 ->
+  ~ In cur (map fst l) -> NoDup (map fst l) ->
+  let '(h', found) := scan_fixed fuel h cur next size in
+  match list_scan size l with
+  | [] => found = 0 /\ cfind h' cur = Some (mkcb cur 0 csz)
+  | (id, s) :: r => found = id /\ size <= s /\ chain_at h' id ((id, s) :: r) /\ cfind h' cur = Some (mkcb cur id csz)
+  end.
+Proof. exact scan_fixed_general. Qed.
+Print Assumptions C18_arena_chain_scan_general.
+
 (* FALSE of the pinned loop: "after _alloc_oneshot every next pointer of the chain points to a live block" — DESIGN 7.3' witness
    (blocks of 2000, 4048, 8144, 16336 bytes after a soft reset, request of 8000 bytes) *)
 Theorem C18_arena_chain_pinned_refuted :
@@ -486,6 +500,110 @@ Theorem C18_tree_link_leaf : forall h p l rp kp r node k (dir : bool),
 Proof. exact link_leaf_rep. Qed.
 Print Assumptions C18_tree_link_leaf.
 
+(* ================================================================== ArenaTree::insert, trees of ANY size (the model's loop fuel of 200
+   iterations bounds the height by 98, i.e. more than 2^48 nodes).
+   (1) the top-down insertion as a function on abstract trees (link / colour flip / single or double rotation / descent, one
+       step per iteration of the C++ loop): the result is a red-black tree (black root, equal black heights, no red node with a
+       red child) whose in-order key sequence is the old one with the new key at its sorted place *)
+Theorem C18_tree_insert_abstract : forall node kn fuel T b,
+  bbh T = Some b -> bred T = false -> T <> BL -> (2 * bheight T + 1 < fuel)%nat ->
+  exists R, zinsert node kn fuel T = Some R /\ bred R = false /\ (bbh R = Some b \/ bbh R = Some (b + 1)) /\
+    (sortedb (bkeys T) = true -> ~ In kn (bkeys T) ->
+       sortedb (bkeys R) = true /\ exists L Rr, bkeys T = L ++ Rr /\ bkeys R = L ++ kn :: Rr) /\
+    (exists L Rr, bids T = L ++ Rr /\ bids R = L ++ node :: Rr).
+Proof. exact zinsert_correct. Qed.
+Print Assumptions C18_tree_insert_abstract.
+
+(* (2) the loop over the node heap (variables g, p, t, q, dir, last as in the C++) simulates that function iteration by
+       iteration, from any state of the loop invariant (the path from the false root to q and the subtree below q are
+       represented in the heap; g and t may lag behind for one or two iterations after a rotation, during which the guards of
+       the invariant exclude another rotation) *)
+Theorem C18_tree_insert_loop_simulates : forall node kn fuel m zs F h g p t q dir last,
+  AInv node kn m zs F -> repz h zs q -> rep h q F -> Hyg node zs F -> 1 < node -> hget h node = mktn 0 0 true kn ->
+  vars_ok m zs g p t dir last -> (zs = [] -> F <> BL) -> (pot node kn m F < fuel)%nat ->
+  exists R, zloop node kn fuel m zs F = Some R /\
+    rep (insert_loop fuel h node g p t q dir last) (child (insert_loop fuel h node g p t q dir last) HEAD true) R.
+Proof. exact insert_loop_sim. Qed.
+Print Assumptions C18_tree_insert_loop_simulates.
+
+(* (3) ArenaTree::insert on a heap that represents a red-black search tree T (distinct node ids, the new node not among them):
+       the heap afterwards represents a red-black search tree R — black root, black height b', height <= 2(b'-1) — whose key
+       sequence is that of T with the new key inserted at its sorted place; get() finds exactly the old keys and the new one;
+       the node set is the old one plus the new node *)
+Theorem C18_tree_insert_unbounded : forall node kn t T b,
+  rep (heap t) (root t) T -> NoDup (bids T) -> (forall i, In i (bids T) -> 1 < i /\ i <> node) -> 1 < node ->
+  bbh T = Some b -> bred T = false -> sortedb (bkeys T) = true -> ~ In kn (bkeys T) -> (bheight T < 98)%nat ->
+  let t' := tree_insert t node kn in
+  exists R b', rep (heap t') (root t') R /\
+    bred R = false /\ bbh R = Some b' /\ Z.of_nat (bheight R) <= 2 * (b' - 1) /\
+    tree_keys t = bkeys T /\ tree_keys t' = bkeys R /\ sortedb (tree_keys t') = true /\
+    (exists L Rr, tree_keys t = L ++ Rr /\ tree_keys t' = L ++ kn :: Rr) /\
+    (forall k, tree_get t' k <> 0 <-> k = kn \/ In k (tree_keys t)) /\
+    NoDup (bids R) /\ (forall i, In i (bids R) <-> i = node \/ In i (bids T)).
+Proof. exact tree_insert_unbounded. Qed.
+Print Assumptions C18_tree_insert_unbounded.
+
+(* ================================================================== ArenaTree::remove, trees of ANY size: the top-down removal
+   ("search and push a red down": single rotation at q, colour flip, single/double rotation at p, one step per iteration of
+   the C++ loop; then unlink the bottom node q and put q in the place of the found node) as a function on abstract trees:
+   every intermediate tree obeys the red-black rules, the loop ends at a red leaf or at the only node, the result is a
+   red-black tree with a black root whose in-order key sequence is the old one without the removed key.
+   (That the node-heap loop of the model computes this function is C18_tree_remove_loop_simulates / C18_tree_remove_unbounded
+   below; the model driver additionally re-checks the agreement on every executed remove: TreeAgreeModel.remove_agrees.) *)
+Theorem C18_tree_remove_abstract : forall kn fuel T b,
+  bbh T = Some b -> sortedb (bkeys T) = true -> In kn (bkeys T) -> (S (bheight T) < fuel)%nat ->
+  exists R, zremove kn fuel T = Some R /\ (exists b', bbh R = Some b') /\ bred R = false /\
+    exists L Rr, bkeys T = L ++ kn :: Rr /\ bkeys R = L ++ Rr /\ sortedb (bkeys R) = true.
+Proof. exact zremove_correct. Qed.
+Print Assumptions C18_tree_remove_abstract.
+
+(* the invariant of the removal loop, step by step *)
+Theorem C18_tree_remove_step_invariant : forall kn s s', RAll kn s -> rstep kn s = Some s' ->
+  RAll kn s' /\ bkeys (whole s') = bkeys (whole s) /\ bids (whole s') = bids (whole s) /\ (rmeasure kn s' < rmeasure kn s)%nat.
+Proof. exact rstep_all. Qed.
+Print Assumptions C18_tree_remove_step_invariant.
+
+(* the loop over the node heap (variables g, p, q, f, gf, dir as in the C++) simulates the abstract steps: the state relation
+   Rrel (path + subtree below q represented in the heap, p the path head, the found node f and the start gf of the final re-link
+   walk — null, the false root or a path node strictly above f) is kept by every iteration and the loop stops where the abstract
+   loop stops *)
+Theorem C18_tree_remove_loop_simulates : forall node kn fuel s h g p q dir f gf,
+  RAll kn s -> Rrel node kn h s p q dir f gf -> (rmeasure kn s < fuel)%nat ->
+  exists e h' g' p' q' f' gf' dir',
+    rloop kn fuel s = Some e /\ remove_loop fuel h node g p q f gf dir = (h', (g', p', q', f', gf')) /\
+    Rrel node kn h' e p' q' dir' f' gf' /\ RAll kn e /\ rstep kn e = None /\
+    bkeys (whole e) = bkeys (whole s) /\ bids (whole e) = bids (whole s).
+Proof. exact remove_loop_sim. Qed.
+Print Assumptions C18_tree_remove_loop_simulates.
+
+(* ArenaTree::remove(node) on a heap that represents a red-black search tree T containing the node: the heap afterwards
+   represents the tree computed by the abstract removal (loop, unlink of the bottom node q, re-link of q in the place of the
+   found node by the walk from gf); distinct node ids *)
+Theorem C18_tree_remove_refines : forall t T b node,
+  rep (heap t) (root t) T -> NoDup (bids T) -> (forall i, In i (bids T) -> 1 < i) -> In node (bids T) ->
+  bbh T = Some b -> sortedb (bkeys T) = true -> (bheight T < 98)%nat ->
+  let kn := key (heap t) node in
+  let t' := tree_remove t node in
+  exists R, zremove kn 200 T = Some R /\ rep (heap t') (root t') R /\ NoDup (bids R) /\ (forall i, In i (bids R) -> 1 < i).
+Proof. exact tree_remove_refines. Qed.
+Print Assumptions C18_tree_remove_refines.
+
+(* ... and in terms of the reading functions: red-black rules (black root, black height b', height <= 2(b'-1)), tree_keys
+   loses exactly the key of the removed node and stays sorted, get() finds exactly the remaining keys *)
+Theorem C18_tree_remove_unbounded : forall t T b node,
+  rep (heap t) (root t) T -> NoDup (bids T) -> (forall i, In i (bids T) -> 1 < i) -> In node (bids T) ->
+  bbh T = Some b -> sortedb (bkeys T) = true -> (bheight T < 98)%nat ->
+  let kn := key (heap t) node in
+  let t' := tree_remove t node in
+  exists R b', rep (heap t') (root t') R /\
+    bred R = false /\ bbh R = Some b' /\ Z.of_nat (bheight R) <= 2 * (b' - 1) /\
+    tree_keys t = bkeys T /\ tree_keys t' = bkeys R /\ sortedb (tree_keys t') = true /\
+    (exists L Rr, tree_keys t = L ++ kn :: Rr /\ tree_keys t' = L ++ Rr) /\
+    (forall k, tree_get t' k <> 0 <-> In k (tree_keys t')) /\
+    NoDup (bids R).
+Proof. exact tree_remove_unbounded. Qed.
+Print Assumptions C18_tree_remove_unbounded.
+
 (* ArenaBitSet::resize growing, as a whole (reallocation through the shared arena included): on kOk the old bits are kept, the
    new bits have the requested value, the invariant (capacity/64 words in a live arena block released as capacity/8 bytes,
    unused bits clear) and the arena invariant hold; on kOutOfMemory the bit set is untouched *)
@@ -541,5 +659,22 @@ Theorem C18_bitset_set_bit : forall a b i v, bs_inv a b -> 0 <= i < b_size b ->
   forall j, 0 <= j < b_size b -> bs_bit (bs_set_bit b i v) j = if j =? i then v else bs_bit b j.
 Proof. exact bs_set_bit_sound. Qed.
 Print Assumptions C18_bitset_set_bit.
+
+(* clear_all / fill_all / truncate at the bit-set level (words beyond the size may be uninitialised) *)
+Theorem C18_bitset_clear_all : forall a b, bs_inv a b ->
+  bs_inv a (bs_clear_all b) /\ b_size (bs_clear_all b) = b_size b /\ forall j, 0 <= j < b_size b -> bs_bit (bs_clear_all b) j = false.
+Proof. exact bs_clear_all_sound. Qed.
+Print Assumptions C18_bitset_clear_all.
+
+Theorem C18_bitset_fill_all : forall a b, bs_inv a b ->
+  bs_inv a (bs_fill_all b) /\ b_size (bs_fill_all b) = b_size b /\ forall j, 0 <= j < b_size b -> bs_bit (bs_fill_all b) j = true.
+Proof. exact bs_fill_all_sound. Qed.
+Print Assumptions C18_bitset_fill_all.
+
+Theorem C18_bitset_truncate : forall a b n, bs_inv a b -> 0 <= n ->
+  bs_inv a (bs_truncate b n) /\ b_size (bs_truncate b n) = Z.min (b_size b) n /\
+  forall j, 0 <= j < Z.min (b_size b) n -> bs_bit (bs_truncate b n) j = bs_bit b j.
+Proof. exact bs_truncate_sound. Qed.
+Print Assumptions C18_bitset_truncate.
 
 
